@@ -22,7 +22,7 @@ emit("orig", run(f))
 emit("copy", run(g))
 `
 
-var vhDumpFns = [6]string{
+var vhDumpFns = [7]string{
 	// constants of every type, nested function, varargs, upvalue _ENV
 	"local a, b = ... return a + 1, b * 2.5, 'str', 'a-longer-string-constant', true, nil",
 	"local a, b = ... local function sq(x) return x * x end return sq(a) - sq(b)",
@@ -30,11 +30,13 @@ var vhDumpFns = [6]string{
 	"local a, b = ... if a < b then return 'lt' elseif a == b then return 'eq' end return 'gt'",
 	"local a, b = ... local s = 0 for i = 1, 3 do s = s + i * a end return s, b // 1",
 	"local a = ... error('line-info')",
+	// float constants with integral values keep their subtype
+	"local a, b = ... return math.type(2.0), a * 1e15, -0.0, 1e308 * 10, b // 0.0, 3 | 0, 0x7fffffffffffffff, 1e100",
 }
 
 func VerifH_C13_dump_load_equivalent() {
 	run := vhNewRun()
-	k := verifChoose("fn", 6)
+	k := verifChoose("fn", 7)
 	a, b := nondetInt64("a"), nondetInt64("b")
 	_, err := run.lua(vhDumpHarness, vhStr(vhDumpFns[k]), vhInt(a), vhInt(b))
 	verifAssert(err == nil, "chunk-runs")
